@@ -472,9 +472,11 @@ structure PSt where
   pv : PV
   stack : List Link := []
   last : Bytes := []
+  /-- `last_context` (fe7eac6) -/
+  ctx : Bytes := []
 
 def PSt.abs (s : PSt) : HtmlSt :=
-  { enter := s.enter, leave := s.leave, visitor := s.pv.abs, stack := s.stack, last := s.last }
+  { enter := s.enter, leave := s.leave, visitor := s.pv.abs, stack := s.stack, last := s.last, ctx := s.ctx }
 
 /-- `HtmlFilterBodyAction::new`: `visitor.first()` is `element_tree[0]` -/
 def PSt.new (v : PV) : Option PSt := v.first.map fun f => { enter := some f, pv := v }
@@ -540,16 +542,17 @@ def pfold (tk : Tokenize) (ev : Bytes → Bytes → Bool) : List Tok → PSt × 
     | none => none
     | some so' => pfold tk ev ts so'
 
-/-- `HtmlFilterBodyAction::filter`: outer `none` = PANIC, inner `none` = `Err` (invalid UTF-8) -/
+/-- `HtmlFilterBodyAction::filter` (since fe7eac6: the tokenizer is built with `new_fragment(data, last_context)`, the
+loop stops at the first cut token; `raw_tag()` and `err()` are field reads): outer `none` = PANIC, inner `none` = `Err`
+(invalid UTF-8).  `view` (Proofs/FilterStreamLaws.lean) = the tokens the loop processes, what it keeps, the context. -/
 def pfilterHtml (tk : Tokenize) (ev : Bytes → Bytes → Bool) (s : PSt) (input : Bytes) : Option (Option (PSt × Bytes)) :=
   match utf8Split (s.last ++ input) with
   | none => some none
   | some (data, pending) =>
-    let (ts, rest) := tk data
-    let (todo, held) := splitHeld ts
-    match pfold tk ev todo (s, []) with
+    match pfold tk ev (view tk s.ctx data).todo (s, []) with
     | none => none
-    | some (s', out) => some (some ({ s' with last := held ++ rest ++ pending }, out))
+    | some (s', out) =>
+      some (some ({ s' with last := (view tk s.ctx data).tail ++ pending, ctx := (view tk s.ctx data).ctx' }, out))
 
 /-! ### no panic, and the explicit stage is the model's stage -/
 
@@ -704,21 +707,17 @@ theorem filter_no_panic (tk : Tokenize) (ev : Bytes → Bytes → Bool) (s : PSt
       (match r with
        | none => filterHtml tk ev s.abs x = none
        | some (s', o) => s'.pv.WF ∧ s'.pv.tree = s.pv.tree ∧ (Small s → filterHtml tk ev s.abs x = some (s'.abs, o))) := by
-  unfold pfilterHtml filterHtml
+  unfold pfilterHtml
+  rw [filterHtml_view]
   have hl : s.abs.last = s.last := rfl
-  rw [hl]
+  have hc : s.abs.ctx = s.ctx := rfl
+  rw [hl, hc]
   cases hsp : utf8Split (s.last ++ x) with
   | none => exact ⟨none, rfl, rfl⟩
   | some ap =>
     obtain ⟨data, pending⟩ := ap
     simp only
-    generalize tk data = tkd
-    obtain ⟨ts, rest⟩ := tkd
-    simp only
-    generalize splitHeld ts = sh
-    obtain ⟨todo, held⟩ := sh
-    simp only
-    obtain ⟨s1, o1, e1, w1, t1, a1⟩ := pfold_ok tk ev todo s [] h
+    obtain ⟨s1, o1, e1, w1, t1, a1⟩ := pfold_ok tk ev (view tk s.ctx data).todo s [] h
     rw [e1]
     refine ⟨_, rfl, w1, t1, fun hs => ?_⟩
     rw [a1 hs]
@@ -887,18 +886,24 @@ returns `Err` on any input: `next_never_err` (C16). -/
 theorem validated_data {x data pending : Bytes} (h : utf8Split x = some (data, pending)) : V data :=
   V_utf8Split h
 
-theorem raw_as_string_ok {tk : Tokenize} (hv : TokValid tk) {d : Bytes} (hd : V d) : ∀ t ∈ (tk d).1, V t.raw :=
-  hv d hd
+theorem raw_as_string_ok {tk : Tokenize} (hv : TokValidAll tk) {d : Bytes} (hd : V d) : ∀ t ∈ (tk d).1, V t.raw :=
+  hv.plain d hd
 
-theorem buffered_as_string_ok {tk : Tokenize} (hl : Lossless tk) (hv : TokValid tk) {d : Bytes} (hd : V d) (k : Nat) :
+theorem buffered_as_string_ok {tk : Tokenize} (hl : LosslessAll tk) (hv : TokValidAll tk) {d : Bytes} (hd : V d) (k : Nat) :
     V (rawsOf ((tk d).1.drop k) ++ (tk d).2) :=
-  V_append (V_rawsOf fun t ht => hv d hd t (List.mem_of_mem_drop ht)) (V_rest hl hv hd)
+  V_append (V_rawsOf fun t ht => hv.plain d hd t (List.mem_of_mem_drop ht)) (V_rest hl hv hd)
+
+/-- the same in the loop of `filter` (stream tokenizer, remembered context): every token and what is kept are valid -/
+theorem stream_strings_ok {tk : Tokenize} (hl : LosslessAll tk) (hv : TokValidAll tk) {c d : Bytes} (hc : Ctx c)
+    (hd : V d) : (∀ t ∈ (view tk c d).all, V t.raw) ∧ V (view tk c d).tail ∧ V (view tk c d).rem :=
+  ⟨view_all_V hv hc hd, view_tail_V hl hv hc hd, view_rem_V hl hv hc hd⟩
 
 /-- every `String` the html stage builds is valid UTF-8: its output and its buffers (so every buffer handed to
 `leave` / `append_child` / `prepend_child` is a valid `String`, as its Rust type says) -/
-theorem stage_strings_valid {tk : Tokenize} (hl : Lossless tk) (hv : TokValid tk) (ev : Bytes → Bytes → Bool)
-    (s s' : HtmlSt) (x o : Bytes) (hs : HV s) (h : filterHtml tk ev s x = some (s', o)) : HV s' ∧ V o :=
-  filterHtml_V hl hv ev s s' x o hs h
+theorem stage_strings_valid {tk : Tokenize} (hl : LosslessAll tk) (hv : TokValidAll tk) (ev : Bytes → Bytes → Bool)
+    (s s' : HtmlSt) (x o : Bytes) (hs : HV s) (hc : Ctx s.ctx) (h : filterHtml tk ev s x = some (s', o)) :
+    HV s' ∧ Ctx s'.ctx ∧ V o :=
+  filterHtml_V hl hv ev s s' x o hs hc h
 
 /-- `Tokenizer::next()` never returns `Err`, on any input, after any number of calls -/
 theorem next_never_err (bytes : Array Nat) (n : Nat) :
